@@ -53,17 +53,38 @@ def observe(name, data, extra):
     return outs, tree, sorted(reported), r.exc_name
 
 
+def roland_image(rng):
+    import roland_writer as W
+    d = W.Disk(fat_version=rng.choice([1, 2]))
+    ss = []
+    for i in range(rng.randint(2, 4)):
+        nw = rng.choice([300, 4608, 5000])
+        chain = list(range(10 + 3 * i, 10 + 3 * i + max(1, -(-2 * nw // W.CLUSTER))))
+        rng.shuffle(chain)
+        ss.append(d.add(W.SAMPLE, W.Sample("SMP%d" % i, W.tone(nw, i + 1), loop_mode=rng.randrange(7), freq_code=rng.randrange(6), chain=chain)))
+    pt = d.add(W.PARTIAL, W.Partial("PT", ss[:4]))
+    pa = d.add(W.PATCH, W.Patch("PATCH", [pt]))
+    pf = d.add(W.PERFORMANCE, W.Performance("PERF", [pa]))
+    if rng.random() < 0.5:
+        d.add(W.PERFORMANCE, W.Performance("LONELY", [pa]))       # listed by no volume: orphan pseudo volume
+    d.add(W.VOLUME, W.Volume("VOL", [pf]))
+    return W.image_bytes(d)
+
+
 def w_image(pid, tier, seed, job):
     from props import c01 as C1
     ctx = F.Ctx(pid, tier, seed)
     rng = random.Random(job)
-    img, parts, meta = C1.gen_image(rng, tier)
+    if job % 4 == 3:
+        img, parts, meta = roland_image(rng), None, {}
+    else:
+        img, parts, meta = C1.gen_image(rng, tier)
     if job % 3 == 1:
         img = img + bytes(rng.randrange(256) for _ in range(rng.choice([1, 1000, 2047, 2049])))   # size not a multiple of 2048
     base = None
     for kind, (name, data, extra) in variants(img).items():
         obs = observe(name, data, extra)
-        case = {"seed": job, "container": kind, "size": len(img)}
+        case = {"seed": job, "container": kind, "size": len(img), "format": "roland" if parts is None else "akai"}
         ctx.count("container", (job, kind), nontrivial=bool(obs[1]))
         ctx.require("ls and export finish without exception", case, obs[3] is None and all(v[1] is None for v in obs[0].values()),
                     (obs[3], [k for k, v in obs[0].items() if v[1]]))
